@@ -227,7 +227,7 @@ func checkUnit(r *sup.CaseResult, top []*Cmd, text string, l *plog, sr surround,
 					continue
 				}
 				for _, id := range g.Probes {
-					if probes[id] != nil && probes[id].F != "" && l.ended(id) {
+					if probes[id] != nil && probes[id].F != "" && probes[id].F != "stopok" && l.ended(id) {
 						sibling = fmt.Sprintf("%s handler (failing probe %d ended at seq %d)", g.Kind, id, l.end[id])
 					}
 				}
